@@ -379,8 +379,10 @@ def _export_jobs(jobs, path, copytree):
         )
     _check_directory_structure_validity(normalized)
 
-    for src, dst in paths.items():
-        copytree(src, dst)
+    # Copy to the normalized path that was checked: 'a/x/../y' is 'a/y', and
+    # must not create 'a/x' on the way.
+    for (src, dst), norm in zip(paths.items(), normalized):
+        copytree(src, norm)
         yield src, dst
 
 
